@@ -9,7 +9,7 @@ open Utv.JsonSchema
 
 def fragEntry (all : Obj) (k : String) (v : Json) : Bool :=
   fragmentKeywords.contains k &&
-  (if k == "items" || k == "additionalProperties" then fragSimple all k v || inFragment v
+  (if k == "items" || k == "additionalProperties" then inFragment v
    else if manyKeywords.contains k then (match v with
      | .arr (s :: ss) => inFragment s && fragList ss
      | _ => false)
